@@ -39,18 +39,20 @@ Locate(S, raw, cur, endpos) ==
     LET n == Len(raw)
         h == endpos - n
     IN IF h >= cur /\ endpos <= Len(S) /\ SubSeq(S, h + 1, endpos) = raw THEN h
-       ELSE LET c == {j \in cur..(Len(S) - n) : SubSeq(S, j + 1, j + n) = raw}
+       ELSE LET c == {j \in cur..(Len(S) - n) : S[j + 1] = raw[1] /\ S[j + 2] = raw[2] /\ S[j + n] = raw[n] /\ SubSeq(S, j + 1, j + n) = raw}
             IN IF c = {} THEN -1 ELSE CHOOSE j \in c : \A k \in c : j <= k
 
-RECURSIVE SlicesFrom(_, _, _, _, _)
-SlicesFrom(t, S, r, i, cur) ==
-    IF i > Len(r.items) THEN "ok"
-    ELSE IF r.items[i] = 0 THEN "C07:raw-not-bytes"
-    ELSE LET raw == Raw(t, r.items[i])
-             at  == Locate(S, raw, cur, r.endpos[i])
-         IN IF Len(raw) < 2 \/ ProtOfRaw(raw) = "NONE" THEN "C07:item-without-preamble"
-            ELSE IF at < 0 THEN "C07:item-not-an-in-order-slice"
-            ELSE SlicesFrom(t, S, r, i + 1, at + Len(raw))
+\* folded over the item indices (FoldLeft is evaluated iteratively; a recursive operator over thousands of items costs quadratic time)
+SliceStep(t, S, r, acc, i) ==
+    IF acc.v # "ok" THEN acc
+    ELSE IF r.items[i] = 0 THEN [acc EXCEPT !.v = "C07:raw-not-bytes"]
+    ELSE LET raw == Raw(t, r.items[i]) IN
+         IF Len(raw) < 2 \/ ProtOfRaw(raw) = "NONE" THEN [acc EXCEPT !.v = "C07:item-without-preamble"]
+         ELSE LET at == Locate(S, raw, acc.cur, r.endpos[i]) IN
+              IF at < 0 THEN [acc EXCEPT !.v = "C07:item-not-an-in-order-slice"]
+              ELSE [acc EXCEPT !.cur = at + Len(raw)]
+SlicesFrom(t, S, r, i0, cur0) ==
+    FoldLeft(LAMBDA acc, i : SliceStep(t, S, r, acc, i), [cur |-> cur0, v |-> "ok"], [i \in 1..Len(r.items) |-> i]).v
 
 StreamOf(t, r) == IF r.cut < 0 THEN t.S ELSE SubSeq(t.S, 1, r.cut)
 
@@ -162,6 +164,16 @@ ItemsBeforeFirstH(evs, i, n) ==
     ELSE IF evs[i][1] = "h" THEN n
     ELSE ItemsBeforeFirstH(evs, i + 1, IF evs[i][1] = "i" THEN n + 1 ELSE n)
 
+\* over the logged events of the ERR_LOG run: a handler call concerns bytes the reader has consumed and rejected - no item delivered later
+\* may start before that point ("never for a delivered frame"), and two calls cannot refer to the same point ("exactly once")
+HandlerStep(acc, e) ==
+    IF acc.v # "ok" THEN acc
+    ELSE IF e[1] = "h" THEN (IF e[5] = acc.lasth /\ acc.lasth >= 0 THEN [acc EXCEPT !.v = "C12:handler-invoked-twice-for-one-rejected-frame"]
+                             ELSE [acc EXCEPT !.lasth = e[5]])
+    ELSE IF e[1] = "i" /\ e[4] < acc.lasth THEN [acc EXCEPT !.v = "C12:handler-invoked-for-a-frame-that-was-delivered"]
+    ELSE acc
+HandlerOrder(evs) == FoldLeft(HandlerStep, [lasth |-> -1, v |-> "ok"], evs).v
+
 MonC12(t) ==
     LET ig == t.runs[1]
         lg == t.runs[2]
@@ -174,6 +186,7 @@ MonC12(t) ==
        ELSE IF nh.end = "eof" /\ nh.items # lg.items THEN "C12:handler-presence-changes-items"
        ELSE IF Len(ig.errfams) # 0 THEN "C12:handler-called-under-ignore"
        ELSE IF \E i \in 1..nerr : lg.errfams[i] \notin {"UBX", "NMEA", "RTCM"} THEN "C12:handler-got-foreign-exception"
+       ELSE IF HandlerOrder(lg.events) # "ok" THEN HandlerOrder(lg.events)
        ELSE IF Len(t.recipe) > 0 /\
                LET rej == SelectSeq(t.recipe, LAMBDA x : x.p # "NOISE" /\ x.ok = 0)
                IN nerr # Len(rej) \/ \E i \in 1..Len(rej) : i <= nerr /\ lg.errfams[i] # rej[i].fam
